@@ -304,6 +304,7 @@ def _eval_list_fn(h, states):
     comparisons, `p.exitcode`, `p.is_alive()`).  Raises _PredUnsupported outside that fragment, _Raise for a Python
     exception of the evaluated code (e.g. comparing None with an int)."""
     par = h.params[0]
+    depth = [0]
 
     class Ret(Exception):
         def __init__(self, v):
@@ -336,11 +337,25 @@ def _eval_list_fn(h, states):
             o = ev(e.value, env)
             if isinstance(o, tuple) and len(o) == 2 and e.attr == "exitcode":
                 return o[1]
+            if isinstance(o, tuple) and len(o) == 2 and e.attr == "sentinel":
+                return o  # the handle that becomes ready when the process ends: stands for the process
             raise _PredUnsupported(norm(e))
         if isinstance(e, ast.Call):
             if isinstance(e.func, ast.Attribute) and e.func.attr == "is_alive" and not e.args:
                 o = ev(e.func.value, env)
                 return o[0]
+            fn_name = norm(e.func).split(".")[-1]
+            if fn_name == "wait" and e.args:
+                # multiprocessing.connection.wait(sentinels, timeout=0): the ones whose process has ended
+                return [o for o in ev(e.args[0], env) if isinstance(o, tuple) and not o[0]]
+            if isinstance(e.func, ast.Name) and e.func.id in h.module.funcs and len(e.args) == 1 and not e.keywords and depth[0] < 3:
+                callee = h.module.funcs[e.func.id]
+                if len(callee.params) == 1:
+                    depth[0] += 1
+                    try:
+                        return _eval_list_fn(callee, ev(e.args[0], env))
+                    finally:
+                        depth[0] -= 1
             if isinstance(e.func, ast.Name) and e.func.id in ("any", "all", "max", "min", "sum", "len", "list", "set", "sorted", "bool", "abs") and e.args:
                 args = [ev(a, env) for a in e.args]
                 try:
@@ -444,9 +459,21 @@ def helper_kind_by_evaluation(h):
         if agrees(spec, dom) is None:
             out.update(kind=kind, polarity=pol)
             return out
-    # an exit-code predicate that is wrong on some group of finished processes: name the group
-    w = agrees(lambda k: all(x == "ok" for x in k), dead_only)
-    out.update(kind="exitcode", polarity=True, problem=f"`{norm(h.node.body[-1])[:70]}` is not 'every process exited with code 0': for the finished group ({', '.join(w[0])}) it gives {w[1]}" if w else "the predicate matches none of the needed process-group facts")
+    # none of the facts the parent needs: name the nearest one and a group on which the predicate departs from it
+    specs = (
+        ("some process is alive", "alive_any", lambda k: any(x == "alive" for x in k), None),
+        ("no process is alive", "alive_any", lambda k: not any(x == "alive" for x in k), None),
+        ("every process exited with code 0", "exitcode", lambda k: all(x == "ok" for x in k), dead_only),
+        ("some process did not exit with code 0", "exitcode", lambda k: not all(x == "ok" for x in k), dead_only),
+    )
+    best = None
+    for label, kind, spec, dom in specs:
+        miss = [(k, v) for k, v in table.items() if (dom is None or dom(k)) and v != spec(k)]
+        if best is None or len(miss) < len(best[2]):
+            best = (label, kind, miss)
+    label, kind, miss = best
+    k0, v0 = min(miss, key=lambda kv: len(kv[0]))
+    out.update(kind=kind, polarity=True, problem=f"`{norm(h.node.body[-1])[:70]}` is not '{label}' (nor any other fact the parent needs): for the group ({', '.join(k0)}) it gives {v0}")
     return out
 
 
